@@ -7,16 +7,22 @@ BASE = "cd /repo && /venv/bin/python -m pytest -ra -q -p no:cacheprovider --time
 TB = ("Lean 4.33.0 kernel; axioms propext/Classical.choice/Quot.sound only (audited by #print axioms on every property theorem, "
       "every run); Mathlib v4.33.0 modules; the Python generator/correspondence harness in vt/ and Driver.lean's parser; ")
 
-# id -> (category, text, note, technique, design_ref)
-CLAIMS = {
- "C20": ("proof",
-         "Theorems in DarsiaProps.C20 over tables re-tabulated from the running helpers on every run (G1): agreement of to_matrix/to_cartesian with interpret_indexing, there-and-back, integer = named axis, coherence and bijectivity of interpret_indexing, layout helper = coordinate-system placement (all shapes), layout helpers mutually inverse (all shapes, all indices), slice/reduce by name = by index. Exhaustive over the finite vocabulary; random arrays tie the layout index maps and slicing/reduction to the model.",
-         TB + "numpy swapaxes/flip semantics (tied by the layout correspondence); tabulation is exhaustive over dims 1-3 x axes x indexings.",
-         "Lean 4 proof (decide over generated tables + general index-map lemmas), G1 table regeneration + differential correspondence", "6/C20"),
-}
+def collect():
+    """CLAIM dicts live in the check modules: vt/checks/cNN.py -> CLAIM = {category, text, note, technique, design_ref}."""
+    import importlib, sys
+    sys.path.insert(0, str(V))
+    out = {}
+    for f in sorted((V / "vt" / "checks").glob("c[0-9]*.py")):
+        m = importlib.import_module("vt.checks." + f.stem)
+        c = getattr(m, "CLAIM", None)
+        if c:
+            out[f.stem.upper()] = (c["category"], c["text"], TB + c["note"], c["technique"], c.get("design_ref", "6/" + f.stem.upper()))
+    return out
+
 PENDING = {}
 
 def main():
+    CLAIMS = collect()
     props = [json.loads(l) for l in (V / "properties.jsonl").read_text().splitlines() if l.strip()]
     checks, na = [], []
     for p in props:
